@@ -667,6 +667,12 @@ func Extremes(target string, thorough bool) Family {
 		if thorough {
 			lens = append(lens, 1<<20+3)
 		}
+		if target == "mini" {
+			// one value of 17 MB and one of 33 MB (above 2^24 and 2^25 bytes, where
+			// size limits of the thrift layer and of buffers tend to sit); the
+			// value is also the page's min / max statistic
+			lens = append(lens, 17<<20+5, 33<<20+1)
+		}
 		// (1) huge strings in every string leaf, one leaf at a time
 		for li, leaf := range root.Leaves() {
 			if leaf.GoKind != reflect.String {
@@ -678,6 +684,9 @@ func Extremes(target string, thorough bool) Family {
 				big := strings.Repeat("\x00\xffab", n/4+1)[:n]
 				recs := []refpq.Val{base[0], substitute(root, base[1], leaf, big), base[2]}
 				for _, cd := range codecs3 {
+					if n > 16<<20 && cd != sut.Snappy {
+						continue
+					}
 					emit(fmt.Sprintf("str|l%d|n%d|z%d", li, n, cd), t, recs, []int{2, 1}, 2, cd)
 				}
 			}
@@ -897,6 +906,22 @@ func MixedRecords(t *sut.Target, n int) []refpq.Val {
 	out := make([]refpq.Val, n)
 	for i := range out {
 		out[i] = patterned(t.Schema(), pats[i%len(pats)], i, f)
+	}
+	return out
+}
+
+// RunRecords returns n records whose level streams consist of long runs: the
+// first half with every optional null and every list empty, the second half
+// with everything set (lists of one element).
+func RunRecords(t *sut.Target, n int) []refpq.Val {
+	f := &gen.Filler{}
+	out := make([]refpq.Val, n)
+	for i := range out {
+		pat := "all-null"
+		if i >= n/2 {
+			pat = "none-null"
+		}
+		out[i] = patterned(t.Schema(), pat, i, f)
 	}
 	return out
 }
